@@ -6,7 +6,7 @@ import base64, collections, hashlib, json, os, shutil
 import vflib, clirun
 from vflib import ROOT, CACHE
 
-CLS = ["known_C20_chain_name", "known_C20_collision", "known_C20_python_import_order"]
+CLS = ["known_C20_chain_name", "known_C20_collision"]
 
 RULE = ("corpus witnesses (corpus/cli/c20_*.json) + sequences of model sets from the shared generator exported one after another into the same directory: "
         "models added / removed (random subset per step), moved between sub-directories, renamed with the .vespertide infix, json/yaml/yml; three ORMs "
@@ -35,7 +35,7 @@ def run(tier, seed):
     chk = vflib.Check("C20", tier, seed)
     chk.assumptions = [
         "model = coq/cli/Model/ExportTree.v; tie = K-tree evaluated inside Coq on every export run (tree before, models in walk order, tree after)",
-        "the exporter is outside this layer: an entity rendering is one opaque content id per table; renderings are identified by comparing bytes with an export into an empty directory, after sorting the names of `from datetime import ..` (HashSet order, DESIGN D5; the oracle compares raw bytes)",
+        "the exporter is outside this layer: an entity rendering is one opaque content id per table; renderings are identified by comparing bytes with an export into an empty directory (raw bytes, nothing canonicalised)",
         "the order of the parallel writes is unspecified in Rust; the model writes in list order, which matters only under an output-path collision (such cases are exempt from the content comparison and reported as a finding)",
         "sanitize_filename is exact for ASCII names (bytes >= 128 are kept); symlinks, permissions and I/O errors other than file-vs-directory clashes are not modelled"]
     chk.cov["trusted_base"] = vflib.TRUSTED_COMMON + [
